@@ -260,6 +260,23 @@ func c13CheckQuad(c c13Quad) engine.Result {
 	return res
 }
 
+// c13Delimited: a receiver delimits a section by its 12-bit section_length, not by the slice it was handed: the
+// bytes table_id .. 3+section_length must be the whole emitted section and carry a zero CRC residue.
+func c13Delimited(res *engine.Result, enc []byte) {
+	if len(enc) < 3 {
+		res.Failf("emitted-section|splice_info_section|shorter-than-its-header", "% x", enc)
+		return
+	}
+	sl := int(enc[1]&0x0F)<<8 | int(enc[2])
+	if 3+sl != len(enc) {
+		res.Failf("emitted-section|splice_info_section|section_length-disagrees-with-emitted-bytes", "section_length %d delimits %d bytes, %d were emitted", sl, 3+sl, len(enc))
+		return
+	}
+	if ref.CRC32MPEG2(enc[:3+sl]) != 0 {
+		res.Failf("emitted-section|splice_info_section|crc-residue-of-delimited-section", "CRC over the %d bytes the section_length delimits is %08x", 3+sl, ref.CRC32MPEG2(enc[:3+sl]))
+	}
+}
+
 type c13Emit struct {
 	Kind string `json:"kind"`
 	Seed int    `json:"seed"`
@@ -289,6 +306,7 @@ func c13CheckEmitted(c c13Emit) engine.Result {
 					if ref.CRC32MPEG2(enc) != 0 {
 						res.Failf("emitted-section|splice_info_section|crc-residue", "seed %d tier %#x alignment stuffing %d: CRC of the encoded section is %08x, want 0", c.Seed, tier, stuffing, ref.CRC32MPEG2(enc))
 					}
+					c13Delimited(&res, enc)
 				}
 			}
 		case "scte35-long":
@@ -307,6 +325,7 @@ func c13CheckEmitted(c c13Emit) engine.Result {
 			if ref.CRC32MPEG2(enc) != 0 {
 				res.Failf("emitted-section|splice_info_section|crc-residue", "section_length %d: CRC of the encoded section is %08x, want 0", c.Seed, ref.CRC32MPEG2(enc))
 			}
+			c13Delimited(&res, enc)
 		case "pmt-keep-first-k":
 			// a table of 60 (c.Seed%2==1: 200) descriptor-less streams filtered to its first k streams, for
 			// every k: the rebuilt section runs through every length (buffer growth points included)
@@ -489,7 +508,7 @@ func init() {
 			},
 			&engine.Enum[c13Emit]{
 				Name: "emitted-sections",
-				Rule: "every captured/constructed SCTE-35 section of the seed pool decoded and re-encoded with two tier values x alignment stuffing {0,1,4}, SCTE-35 sections with section_length 900..4093 (around every multiple of 1024), every PMT of the seed pool filtered to each prefix of its PID list under 5 packetisations, and tables of 60 and 200 descriptor-less streams (pointer_field 0 and 7) filtered to their first k streams for every k: the reference CRC of every emitted section must be zero (the exhaustive versions of this clause live in C09 and C14)",
+				Rule: "every captured/constructed SCTE-35 section of the seed pool decoded and re-encoded with two tier values x alignment stuffing {0,1,4}, SCTE-35 sections with section_length 900..4093 (around every multiple of 1024; every SCTE-35 section is also delimited by its own 12-bit section_length the way a receiver does, and that part must be everything emitted and have a zero residue), every PMT of the seed pool filtered to each prefix of its PID list under 5 packetisations, and tables of 60 and 200 descriptor-less streams (pointer_field 0 and 7) filtered to their first k streams for every k: the reference CRC of every emitted section must be zero (the exhaustive versions of this clause live in C09 and C14)",
 				Gen: func(r *engine.Run, emit func(c13Emit)) {
 					for i := range c05SeedPools["scte35"] {
 						emit(c13Emit{"scte35", i})
